@@ -724,6 +724,45 @@ def async_logs(ctx, pexpect, n):
     ctx.oracle_stats['async_log_runs'] = tried
 
 
+def failed_send_is_logged(ctx, pexpect):
+    """the send log records what the send family was ASKED to send: also when the write then fails (the peer has gone away)"""
+    import socket
+    from pexpect import fdpexpect, socket_pexpect
+    tried = 0
+    for transport in ('fd', 'socket'):
+        for enc in (None, 'utf-8'):
+            sd = io.StringIO() if enc else io.BytesIO()
+            if transport == 'fd':
+                r, w = os.pipe()
+                c = fdpexpect.fdspawn(w, encoding=enc, timeout=5)
+                os.close(r)
+                closers = [lambda: os.close(w)]
+            else:
+                a, b = socket.socketpair()
+                c = socket_pexpect.SocketSpawn(a, encoding=enc, timeout=5)
+                b.close()
+                closers = [a.close]
+            c.logfile_send = sd
+            payload = 'hello' if enc else b'hello'
+            raised = None
+            try:
+                c.send(payload)
+            except OSError as e:
+                raised = e
+            finally:
+                for f_ in closers:
+                    try:
+                        f_()
+                    except OSError:
+                        pass
+            tried += 1
+            if sd.getvalue() != payload:
+                ctx.hit('C11/failed-send', '%s transport (%s): send(%r) to a peer that has gone away %s; logfile_send holds %r'
+                        % (transport, enc or 'bytes', payload, 'raised %r' % (raised,) if raised else 'returned', sd.getvalue()), {'transport': transport, 'encoding': enc})
+                return
+    ctx.oracle_stats['failed_sends_logged'] = tried
+
+
 def popen_small_reads(ctx, pexpect):
     """PopenSpawn with reads smaller than what the reader thread has queued: the log must never run ahead of what was
     delivered, and logfile must keep the order of the operations"""
@@ -819,6 +858,7 @@ def run_property(ctx, which, props_file):
     else:
         oracle_C11(ctx, pexpect, results)
         async_logs(ctx, pexpect, 3000 if thorough else 300)
+        failed_send_is_logged(ctx, pexpect)
         popen_small_reads(ctx, pexpect)
         interact_logs(ctx, pexpect)
 
